@@ -516,6 +516,75 @@ def monitor_c05(sc, log):
                 if (r[2], r[3], r[1]) != (v, e, tc):
                     return ("fresh-not-served", "Get2 action %d at %d: key %d has a fresh result (%d,%d) completed at %d (age %d < E=%d) but got (%d,%d) at %d" % (
                         a, tc, k, v, e, u, tc - u, expire_of(sc, e), r[2], r[3], r[1]))
+    # the property's case table for keys that are never Set, in logs where no job had to queue and
+    # nothing else of the key happens at the call instant: fresh / stale / rotted / loading
+    set_keys = set(act[2] for act in sc.acts if act[1] == "S")
+    all_ends = {(k, j): t for (k, j, t, v, e) in log.ends}
+    end_instants = set(all_ends.values())
+
+    def worker_idle_at(tc, k):
+        # fewer than <parallel> loaders running, no loader returning and no other key's loader
+        # starting at that instant: a job created at tc starts at tc
+        if tc in end_instants or any(t == tc and k2 != k for (k2, j, t) in log.starts):
+            return False
+        n = sum(1 for (k2, j, t) in log.starts if t < tc and all_ends.get((k2, j), tc + 1) > tc)
+        return n < sc.par
+
+    if True:
+        ends = {(k, j): (t, v, e) for (k, j, t, v, e) in log.ends}
+        for a, act in enumerate(sc.acts):
+            if act[1] not in ("L", "G") or act[2] in set_keys or a not in log.call:
+                continue
+            k, tc = act[2], log.call[a]
+            if not worker_idle_at(tc, k):
+                continue
+            cs = comp.get(k, [])
+            if any(c[0] == tc for c in cs):
+                continue  # completion at the call instant: either order is allowed
+            before = [c for c in cs if c[0] < tc]
+            running = [(j, t) for (k2, j, t) in log.starts if k2 == k and t < tc and ends.get((k, j), (tc + 1,))[0] > tc]
+            started_now = [(j, t) for (k2, j, t) in log.starts if k2 == k and t == tc]
+            if len(running) > 1:
+                continue  # C04's monitor
+            cur = before[-1] if before else None
+            age_ok = cur is not None and tc - cur[0] < 2 * expire_of(sc, cur[2])
+            fresh = cur is not None and tc - cur[0] < expire_of(sc, cur[2])
+            if act[1] == "G":
+                r = log.ret[a]
+                if age_ok:
+                    want = (cur[1], cur[2], tc)
+                elif running:
+                    en = ends.get((k, running[0][0]))
+                    if en is None:
+                        continue
+                    want = (en[1], en[2], en[0])
+                else:
+                    want = (0, 0, tc)
+                if (r[2], r[3], r[1]) != want:
+                    state = "fresh" if fresh else ("stale (E <= age < 2E)" if age_ok else ("rotted/absent, load in flight" if running else "rotted/absent, no load in flight"))
+                    return ("get2-case-table", "Get2 action %d of key %d at %d: entry is %s (last completion %s, E=%s) so it must return (%d,%d) at %d, got (%d,%d) at %d" % (
+                        a, k, tc, state, cur[:3] if cur else None, expire_of(sc, cur[2]) if cur else None, want[0], want[1], want[2], r[2], r[3], r[1]))
+            else:
+                must_start = (not running) and (not fresh)
+                if must_start and not started_now:
+                    return ("stale-not-refreshed", "Load action %d of key %d at %d: no load in flight and the last result (%s) is not fresh (E=%s), but no loader invocation started" % (
+                        a, k, tc, cur[:3] if cur else None, expire_of(sc, cur[2]) if cur else None))
+                if (not must_start) and started_now:
+                    return ("needless-load", "Load action %d of key %d at %d started a loader although %s" % (
+                        a, k, tc, "a load is in flight" if running else "the result completed at %d is fresh" % cur[0]))
+                fin = log.final.get(a)
+                if fin is None:
+                    continue
+                if age_ok:
+                    want = (cur[1], cur[2])
+                else:
+                    src = running[0][0] if running else (started_now[0][0] if started_now else None)
+                    if src is None or (k, src) not in ends:
+                        continue
+                    want = ends[(k, src)][1:]
+                if (fin[1], fin[2]) != tuple(want):
+                    return ("load-case-table", "Load action %d of key %d at %d: Future resolved to (%d,%d), the property's case table gives (%d,%d) (last completion %s)" % (
+                        a, k, tc, fin[1], fin[2], want[0], want[1], cur[:3] if cur else None))
     # at most one refresh per stale window (keys without Set; loads that do not queue)
     nsets = set(act[2] for act in sc.acts if act[1] == "S")
     for k, cs in comp.items():
